@@ -902,7 +902,9 @@ pub fn run(req: &RunRequest) -> Value {
                 col("ks1", "ck", "c", CType::BigInt),
                 col("ks1", "ck", "m", CType::BigInt),
             ],
-            pk_indexes: plan.pk_fuzz.clone().unwrap_or_else(|| vec![0, 1, 2]),
+            // The table's partition key is (c, a, b): component 0 is bind marker 2, component
+            // 1 is marker 0, component 2 is marker 1 - the markers are not in key order.
+            pk_indexes: plan.pk_fuzz.clone().unwrap_or_else(|| vec![2, 0, 1]),
             result_cols: vec![col("ks1", "ck", "v", CType::BigInt)],
             marker_bind: Some(3),
             schema_version: 0,
@@ -1457,6 +1459,19 @@ async fn main(plan: Plan) -> Outcome {
     if let Some(Ok(p)) = step(&mut out, "prepare_ck", session.prepare(CK_Q)).await {
         for k in 0..2i64 {
             m += 1;
+            if clean {
+                // The PREPARED answer said which bind marker is which partition-key
+                // component: the token the client computes is the token of (c, a, b).
+                let want = crate::model::murmur3_token(&crate::model::partition_key_bytes(&[
+                    (k + 2).to_be_bytes().to_vec(),
+                    k.to_be_bytes().to_vec(),
+                    (k + 1).to_be_bytes().to_vec(),
+                ]));
+                match p.calculate_token(&(k, k + 1, k + 2, m as i64)) {
+                    Ok(Some(t)) if t.value() == want => out.count("compound_key_token_equal", 1),
+                    other => out.violation("c08.roundtrip", format!("compound partition key (c, a, b) bound as (a, b, c) = ({k}, {}, {}): token {other:?}, expected {want}", k + 1, k + 2)),
+                }
+            }
             let r = step(&mut out, "execute_ck", session.execute_unpaged(&p, (k, k + 1, k + 2, m as i64))).await;
             if clean {
                 match r {
